@@ -1,10 +1,28 @@
 """Oracle self-tests (run by ./check --setup). A failing self-test means the
-oracles must not vote."""
+oracles must not vote; the checkers re-run the relevant ones themselves."""
 import sys
 
 
 def main():
     ok = True
+    from pymon import optests
+    total, failed, skipped = optests.run()
+    print(f"reference interpreter / cost model vs op-tests vectors: {total} checked, {failed} mismatches")
+    ok = ok and failed == 0 and total > 3000
+    from pymon.cryptoref import keccak, bls, ecdsa
+    k = keccak.selftest(200)
+    print("keccak (SHA3 padding vs hashlib.sha3_256, keccak256('')):", k)
+    b = bls.selftest(full=True)
+    print("bls12-381 (generators on curve, r*G=O, encoding of G1, Fp12 inverse, bilinearity):", b)
+    e = ecdsa.selftest()
+    print("ecdsa (curve constants, sign/verify, OpenSSL cross-check):", e)
+    ok = ok and k and b and e
+    # varint / serialisation model spot checks against hand-written vectors
+    from pymon import refclvm as R
+    v = R.ser((b"\x01", (b"", b"\x80"))) == bytes.fromhex("ff01ff808180") and R.deser(bytes.fromhex("ff01ff808180"))[0] == (b"\x01", (b"", b"\x80"))
+    v = v and R.int_to_bytes(128) == b"\x00\x80" and R.int_to_bytes(-129) == b"\xff\x7f" and R.int_from_bytes(b"\xff") == -1
+    print("codec / integer model vectors:", v)
+    ok = ok and v
     print("oracle self-tests:", "ok" if ok else "FAILED")
     return 0 if ok else 1
 
